@@ -19,7 +19,7 @@ EXE = dict(exe="driver_pyval", src="DriverPyVal.lean")
 TEE, FN = 8, 9
 RAISES = (ValueError, TypeError, ZeroDivisionError, KeyError)
 
-INPUTS = [0, 1, 2, "ab", "", None, [], [1], [0, 1, 2], [2, 1, 0, 1], [[1], [0, 2]], [1, "a", 2], (0, 1), {"k": 1, "j": 0}, [[], [1]], {1, 2}, [None, 0]]
+INPUTS = [0, 1, 2, "ab", "", None, [], [1], [0, 1, 2], [2, 1, 0, 1], [[1], [0, 2]], [1, "a", 2], (0, 1), {"k": 1, "j": 0}, [[], [1]], {1, 2}, [None, 0], "cabd", ["ab", "a"], [[1], 1], ["", None]]
 
 
 def leaves(nprobes):
@@ -84,6 +84,14 @@ def directed():
         ("and", ("tee", TEE), p0), ("or", ("tee", TEE), p0), ("and", p0, ("tee", TEE)), ("all", ("tee", TEE)), ("any", ("tee", TEE)), ("not", ("tee", TEE)),
         ("xor", ("tee", TEE), ("tee", TEE)), ("prop", 0), ("and", ("prop", 0), ("prop", 1)), ("all", ("prop", 0)),
     ]
+    # quantifiers over every kind of built-in atom (not only instrumented probes): the element test must be
+    # applied to each element in turn -- e.g. any_p(eq_p("ab")) on the str "cabd" looks at 'c','a','b','d'
+    atoms = [("eq", 1), ("eq", "ab"), ("eq", "a"), ("eq", ""), ("eq", None), ("eq", [1]), ("ne", 1), ("ne", "a"), ("in", (1, "a")),
+             ("notin", (1, "a")), ("ge", 1), ("lt", 2), ("none",), ("notnone",), ("truthy",), ("falsy",), i_, s_, l_, ("regex", "a"),
+             ("empty",), ("notempty",)]
+    for a in atoms:
+        for q in ("all", "any"):
+            D += [(q, a), ("not", (q, a)), (q, ("not", a)), (q, (q, a)), ("and", (q, a), p0), ("or", (q, a), p0)]
     return D
 
 
